@@ -24,6 +24,23 @@
 #   * `x?` on an Option/Result propagates the value of TRY_ERR (a poison `Panic` where the error has no counterpart in the
 #     model: the equality lemma then has to show the case unreachable).
 #
+#
+# Round two (package r2c2) added, with the same rule (outside the subset = TieBroken):
+#   * `let mut x: T;` / `let mut x;` (declared, assigned later): no binder at the declaration; a variable that is still
+#     unassigned at a loop head / an `if` join is local to the body resp. branch (Rust's definite-assignment analysis
+#     guarantees it is not read before it is assigned, nor after the loop); a read of a possibly unassigned variable is refused;
+#   * `for x in v.drain(..)` / `for x in v` (for_in over the elements, v empty resp. moved afterwards), `&v[lo..hi]` (the
+#     call table's checked sub-slice), n-tuple projections `.k`, `v.sort_by_key(|t| t.k)` (call table, by the projection),
+#     `v.iter().position(|x| *x == value)` (find_first), `match <option> { Some(x) => .., None => .. }` in tail position;
+#   * `&dyn Fn(X, ..) -> Y` parameters as function arguments X -> .. -> res Y (a closure may panic); calls of them are fallible;
+#   * Result<A, B> mapped to an enumeration of the model (`result_enum`: Ok / Err constructors), functions and paths with
+#     `&mut` arguments (`out` of a PATHS entry; `&mut v[i]` is read before and written back after the call), operands a
+#     callee consumes without the model returning them (`kills`: any later read is refused);
+#   * a second scalar sort ("celem": Complex<f64> over its own Arith) with the table's mixed operators, spec-level operator /
+#     field / constant tables, float literals as named parameters of the model (`literals`, `lit_nat`, `arrays`), compile-time
+#     `const` items (substituted), usize `/` `%` by a variable (udiv / umod: Panic DivZero);
+#   * a[k][v] = x (row read, element written, row written back), `std::thread::scope(|s| BODY)` = BODY,
+#     `s.spawn(|| BLOCK)` = the computation of BLOCK as a value (res T), `h.join().unwrap()` = join_unwrap h.
 # Anything outside the subset raises TieBroken naming the construct -- never a silent approximation.
 import re
 try:
@@ -586,8 +603,10 @@ def pa(t, ind):
 GTYPE = {"vecn": "(list nat)", "usize": "nat", "isize": "Z", "elem": "(T A)", "bool": "bool", "vec": "(list (T A))", "mat": "(matrix A)",
          "poly": "(list (T A))", "unit": "unit", "lit": "nat"}
 LISTS = {"vec": "elem", "vecn": "usize"}          # list-like containers and the type of their elements
+SCALARS = {"elem"}                                # scalar sorts with + - * / neg of an Arith (extended by the tables)
 def gtype(ty):
     if isinstance(ty, tuple) and ty[0] == "sumty": return "SUMTYPE"
+    if isinstance(ty, tuple) and ty[0] == "fn": return "(" + " -> ".join(gtype(x) for x in ty[1]) + " -> res %s)" % gtype(ty[2])
     if isinstance(ty, tuple) and ty[0] == "tuple": return "(" + " * ".join(gtype(x) for x in ty[1]) + ")"
     if isinstance(ty, tuple) and ty[0] == "opt": return "(option %s)" % gtype(ty[1])
     if ty in GTYPE: return GTYPE[ty]
@@ -598,8 +617,8 @@ class Var:
     def __repr__(self): return "<%s:%s>" % (self.name, self.ty)
 
 class Env:
-    def __init__(self, vs=None): self.vs = list(vs or [])
-    def declare(self, name, g, ty):
+    def __init__(self, vs=None, uninit=frozenset()): self.vs = list(vs or []); self.uninit = frozenset(uninit)
+    def declare(self, name, g, ty, uninit=False):
         # a new Rust variable that shadows a visible one gets its own Gallina name: the state tuples of the enclosing
         # loops keep referring to the shadowed variable
         used = {v.g for v in self.vs}
@@ -607,7 +626,13 @@ class Env:
             k = 1
             while "%s%d" % (g, k) in used: k += 1
             g = "%s%d" % (g, k)
-        v = Var(name, g, ty); return Env(self.vs + [v]), v
+        v = Var(name, g, ty); return Env(self.vs + [v], self.uninit | ({v} if uninit else set())), v
+    def init(self, v):
+        """the variable v (declared by `let mut v: T;`) has been assigned"""
+        return Env(self.vs, self.uninit - {v}) if v in self.uninit else self
+    def merge(self, env2):
+        """this scope, with the definite-assignment knowledge of the end of an inner block (env2)"""
+        return Env(self.vs, self.uninit & env2.uninit)
     def lookup(self, name):
         for v in reversed(self.vs):
             if v.name == name: return v
@@ -640,7 +665,7 @@ RUST_TYPE_RULES = []          # extended from the tables: (regex over the whites
 def rust_type(txt, selfty):
     """Rust type text (as normalised by Parser.ty) -> value type"""
     if txt is None: return "unit"
-    t = txt.replace("mut ", "").replace(" ", "")
+    t = txt.replace("mut ", "").replace(" ", "").replace("::<", "<")
     t = re.sub(r"^&+('[a-z_]+)?", "", t)
     t = re.sub(r"^mut", "", t)
     if t in ("usize",): return "usize"
@@ -654,6 +679,17 @@ def rust_type(txt, selfty):
     if re.match(r"^Polynomial<(T|f64)>$", t): return "poly"
     for pat, ty in RUST_TYPE_RULES:
         if re.match(pat, t): return ty
+    m = re.match(r"^dynFn\((.*)\)->(.*)$", t)
+    if m:                                                # &dyn Fn(X) -> Y : a user closure, which may panic: X -> res Y
+        parts, depth, cur = [], 0, ""
+        for ch in m.group(1):
+            if ch in "<(": depth += 1
+            if ch in ">)": depth -= 1
+            if ch == "," and depth == 0: parts.append(cur); cur = ""
+            else: cur += ch
+        if cur: parts.append(cur)
+        a, r = [rust_type(x, selfty) for x in parts], rust_type(m.group(2), selfty)
+        if all(not (isinstance(x, tuple) and x[0] == "unknown") for x in a + [r]): return ("fn", a, r)
     m = re.match(r"^\((.*)\)$", t)
     if m and m.group(1) == "": return "unit"
     if m:
@@ -718,22 +754,29 @@ class Translator:
                 x = float(m.group(1))
                 if x == 0.0: return ("(@zero A)", "elem")
                 if x == 1.0: return ("(@one A)", "elem")
-                if self.spec.get("sarith") and x == 2.0: return ("(add (@one A) (@one A))", "elem")
+                if self.spec.get("lit_nat") and x == int(x) and 2 <= x < 2 ** 20: return (self.spec["lit_nat"].format(int(x)), "elem")
+                if (self.spec.get("sarith") or self.spec.get("lit2")) and x == 2.0: return ("(add (@one A) (@one A))", "elem")
+                # a literal the model takes as a named parameter (Section variable of the generated file), by its exact text
+                if m.group(1) in self.spec.get("literals", {}): return (self.spec["literals"][m.group(1)], "elem")
+                # an integral literal n. / n.0 as the model's `n as f64` (exact for the small integers that occur)
+                if self.spec.get("lit_nat") and x == int(x) and 2 <= x < 2 ** 20: return (self.spec["lit_nat"].format(int(x)), "elem")
                 self.bad("floating-point literal %s (only 0.0 / 1.0 have a meaning over an arbitrary Arith)" % txt)
             self.bad("numeric literal %r" % txt)
         if k == "var":
             v = env.lookup(e[1])
             if v is None:
-                c = self.tb.CONSTS.get(e[1])
+                c = self.spec.get("consts", {}).get(e[1]) or self.tb.CONSTS.get(e[1])
                 if c: return c
                 self.bad("unknown identifier `%s`" % e[1])
+            if v in env.uninit: self.bad("`%s` is read before it is assigned (declared by a `let` without initialiser)" % e[1])
+            if v in getattr(self, "killed", ()): self.bad("`%s` is read after a call whose effect on it the call table does not model" % e[1])
             return (v.g, v.ty)
         if k == "un":
             op = e[1]
             if op in ("&", "&mut", "*"): return self.ex(e[2], env, B)
             a, ta = self.ex(e[2], env, B)
             if op == "-":
-                if ta == "elem": return ("(neg %s)" % a, "elem")
+                if ta in SCALARS: return ("(neg %s)" % a, ta)
                 if ta in ("isize",): return ("(- %s)%%Z" % a, "isize")
                 if ta == "lit": return ("(-%s)%%Z" % a, "isize")
                 if ("-", ta) in self.tb.UNOPS: return self.apply_fn(self.tb.UNOPS[("-", ta)], [a], B)
@@ -772,15 +815,17 @@ class Translator:
             if e[1] == "vec_rep":
                 x, tx = self.ex(e[2][0], env, B); n, tn = self.ex(e[2][1], env, B)
                 if tx in ("lit", "usize") and tn in ("usize", "lit"): return ("(repeat %s %s)" % (x, n), "vecn")
-                if tx != "elem" or tn not in ("usize", "lit"): self.bad("vec![x; n] with x : %s, n : %s" % (tx, tn))
-                return ("(repeat %s %s)" % (x, n), "vec")
+                lt = [l for l, el in LISTS.items() if el == tx and l in ("vec", "cvec")]
+                if not lt or tn not in ("usize", "lit"): self.bad("vec![x; n] with x : %s, n : %s" % (tx, tn))
+                return ("(repeat %s %s)" % (x, n), lt[0])
             if e[1] == "vec":
+                if not e[2]: return ("(@nil (T A))", "vec")         # vec![]: the `locals` table of the function may retype it
                 parts = [self.ex(x, env, B) for x in e[2]]
                 if any(ty != "elem" for _, ty in parts): self.bad("vec![..] of non-element values")
                 return ("(" + " :: ".join([t for t, _ in parts] + ["(@nil (T A))"]) + ")", "vec")
             self.bad("macro `%s!` in expression position" % e[1])
         if k == "struct":
-            s = self.tb.STRUCTS.get(e[1])
+            s = self.spec.get("structs", {}).get(e[1]) or self.tb.STRUCTS.get(e[1])
             if s is None and e[1] == "Self":
                 cands = [v for v in self.tb.STRUCTS.values() if v[2] == self.selfty]
                 s = cands[0] if len(cands) == 1 else None
@@ -788,7 +833,9 @@ class Translator:
             fields, fmt, ty = s
             got = dict(e[2])
             if sorted(got) != sorted(fields): self.bad("struct literal `%s` with fields %s" % (e[1], sorted(got)))
-            vals = [self.ex(got[f], env, B)[0] for f in fields]
+            vts = [self.ex(got[f], env, B) for f in fields]
+            vals = [v[0] for v in vts]
+            if fmt == "{0}" and vts[0][1] in LISTS: ty = vts[0][1]       # a transparent wrapper (Vector { vec }): the type of its field
             return (fmt.format(*vals), ty)
         if k == "block":
             blk = e[1]
@@ -806,7 +853,7 @@ class Translator:
         if k == "closure": self.bad("closure outside .iter().map(..).collect()")
         if k == "range": self.bad("range expression outside a `for` header / drain")
         if k == "path":
-            c = self.tb.CONSTS.get("::".join(e[1]))
+            c = self.spec.get("consts", {}).get("::".join(e[1])) or self.tb.CONSTS.get("::".join(e[1]))
             if c: return c
             self.bad("path `%s` used as a value" % "::".join(e[1]))
         if k == "match": self.bad("`match` in this position")
@@ -831,6 +878,8 @@ class Translator:
         if ta == "lit" and tb_ == "lit": ta = tb_ = "usize"
         elif ta == "lit": a = self.lit(a, "lit", tb_); ta = tb_
         elif tb_ == "lit": b = self.lit(b, "lit", ta); tb_ = ta
+        if (op, ta, tb_) in self.spec.get("binops", {}):
+            return self.apply_fn(self.spec["binops"][(op, ta, tb_)], [a, b], B)
         if (op, ta, tb_) in self.tb.BINOPS:
             return self.apply_fn(self.tb.BINOPS[(op, ta, tb_)], [a, b], B)
         if ta != tb_: self.bad("operator `%s` on operands of types %s and %s" % (op, ta, tb_))
@@ -840,6 +889,8 @@ class Translator:
                 v = self.fresh("d"); B.append(("bind", ("v", v), ("app", "usub", [g_raw(a), g_raw(b)]))); return (v, "usize")
             if op in ("/", "%") and re.match(r"^[1-9][0-9]*$", b):
                 return ("(Nat.%s %s %s)" % ("div" if op == "/" else "modulo", a, b), "usize")
+            if op in ("/", "%"):                              # a divisor that may be 0: checked (Panic DivZero)
+                v = self.fresh("d"); B.append(("bind", ("v", v), ("app", "udiv" if op == "/" else "umod", [g_raw(a), g_raw(b)]))); return (v, "usize")
             cmpm = {"==": "(%s =? %s)%%nat", "!=": "(negb (%s =? %s)%%nat)", "<": "(%s <? %s)%%nat", "<=": "(%s <=? %s)%%nat"}
             if op in cmpm: return (cmpm[op] % (a, b), "bool")
             if op == ">": return ("(%s <? %s)%%nat" % (b, a), "bool")
@@ -850,10 +901,15 @@ class Translator:
             if op in cmpm: return (cmpm[op] % (a, b), "bool")
             if op == ">": return ("(%s <? %s)%%Z" % (b, a), "bool")
             if op == ">=": return ("(%s <=? %s)%%Z" % (b, a), "bool")
-        if ta == "elem":
-            if op in ("+", "-", "*"): return ("(%s %s %s)" % ({"+": "add", "-": "sub", "*": "mul"}[op], a, b), "elem")
+        if ta in SCALARS:
+            # "elem" = the element type T of the Arith; further scalar sorts (e.g. "celem" = Complex<f64> over the Arith CArith S)
+            # use the same operations of their own Arith (Coq infers it from the operand types)
+            if op in ("+", "-", "*"): return ("(%s %s %s)" % ({"+": "add", "-": "sub", "*": "mul"}[op], a, b), ta)
             if op == "/":
-                v = self.fresh("q"); B.append(("bind", ("v", v), ("app", "div", [g_raw(a), g_raw(b)]))); return (v, "elem")
+                v = self.fresh("q"); B.append(("bind", ("v", v), ("app", "div", [g_raw(a), g_raw(b)]))); return (v, ta)
+        if ta in SCALARS and op in ("==", "!="):
+            return (("(eqb %s %s)" if op == "==" else "(negb (eqb %s %s))") % (a, b), "bool")
+        if ta == "elem":
             cmpm = {"==": "(eqb %s %s)", "!=": "(negb (eqb %s %s))", "<": "(ltb %s %s)", "<=": "(leb %s %s)", ">": "(gtb %s %s)"}
             if op in cmpm: return (cmpm[op] % (a, b), "bool")
             if op == ">=": return ("(leb %s %s)" % (b, a), "bool")
@@ -870,18 +926,29 @@ class Translator:
 
     def field(self, e, env, B):
         base, ty = self.ex(e[1], env, B)
-        f = self.tb.FIELDS.get((ty if not isinstance(ty, tuple) else ty[0], e[2]))
+        f = self.spec.get("fields", {}).get((ty if not isinstance(ty, tuple) else ty[0], e[2])) or self.tb.FIELDS.get((ty if not isinstance(ty, tuple) else ty[0], e[2]))
         if f is None:
-            if isinstance(ty, tuple) and ty[0] == "tuple" and e[2].isdigit() and len(ty[1]) == 2 and int(e[2]) < 2:
-                return ("(%s %s)" % ("fst" if e[2] == "0" else "snd", base), ty[1][int(e[2])])
-            if isinstance(ty, tuple) and ty[0] == "tuple" and e[2].isdigit():
-                self.bad("tuple projection .%s of a tuple that is not a pair (bind it with a `let (a, b, ..) = ..` pattern instead)" % e[2])
+            if isinstance(ty, tuple) and ty[0] == "tuple" and e[2].isdigit() and len(ty[1]) >= 2 and int(e[2]) < len(ty[1]):
+                # (a, b, c) is the left-nested pair ((a, b), c)
+                n, i = len(ty[1]), int(e[2])
+                t = base
+                for _ in range(n - 1 - i if i > 0 else n - 1): t = "(fst %s)" % t
+                if i > 0: t = "(snd %s)" % t
+                return (t, ty[1][i])
             self.bad("field `.%s` of a value of type %s" % (e[2], ty))
         return (f[0].format(base), f[1])
 
     def read_index(self, e, env, B):
         base, ty = self.ex(e[1], env, B)
         idx = e[2]
+        if strip(idx)[0] == "range":
+            # &v[lo..hi]: a checked sub-slice (copied: the translated subset has no aliasing through it)
+            rg = strip(idx)
+            ent = self.tb.METHODS.get(("index_range", ty))
+            if ent is None or rg[1] is None or rg[2] is None or rg[3]: self.bad("range index into a value of type %s" % (ty,))
+            lo, tl = self.ex(rg[1], env, B); hi, th = self.ex(rg[2], env, B)
+            if tl not in ("usize", "lit") or th not in ("usize", "lit"): self.bad("range index of type %s..%s" % (tl, th))
+            return self.apply_fn(ent, [base, lo, hi], B)
         if ty in LISTS:
             i, ti = self.ex(idx, env, B)
             if ti not in ("usize", "lit"): self.bad("index of type %s into a vector" % (ti,))
@@ -940,6 +1007,48 @@ class Translator:
                 return (v, "vec")
             return ("(map (fun %s => %s) %s)" % (xv.g, body, src), "vec")
         if name in ("clone", "to_owned", "to_vec") and not args: return self.ex(recv, env, B)
+        if name == "position" and len(args) == 1 and recv[0] == "mcall" and recv[2] == "iter" and not recv[3]:
+            # v.iter().position(|x| *x == value): the first index whose element equals value (find_first of Model/Vector.v)
+            clo = args[0]
+            ok = clo[0] == "closure" and len(clo[1]) == 1 and clo[1][0][0] == "pvar" and clo[2][0] == "bin" and clo[2][1] == "==" \
+                 and strip(clo[2][2]) == ("var", clo[1][0][1])
+            src, ts = self.ex(recv[1], env, B)
+            if not ok or ts != "vec": self.bad(".iter().position(..) whose predicate is not `|x| *x == <value>`")
+            val, tv = self.ex(clo[2][3], env, B)
+            if tv != "elem": self.bad(".iter().position(|x| *x == v) with v of type %s" % (tv,))
+            return ("(find_first %s %s 0)" % (src, val), ("opt", "usize"))
+        if name == "unwrap" and not args and recv[0] == "mcall" and recv[2] == "join" and not recv[3]:
+            # handle.join().unwrap(): the value the worker returned; a worker that panicked makes join() an Err
+            h, th = self.ex(recv[1], env, B)
+            if th != "handle": self.bad(".join() on a value of type %s" % (th,))
+            v = self.fresh("j"); B.append(("bind", ("v", v), ("app", "join_unwrap", [g_raw(h)]))); return (v, "elem")
+        if name == "spawn" and len(args) == 1 and args[0][0] == "closure" and not args[0][1]:
+            # scope.spawn(|| BLOCK): value model of a scoped worker -- the (possibly panicking) computation of BLOCK over the
+            # values it captures; what a value model cannot exhibit (races) is excluded by the borrow rules of thread::scope
+            r, tr = self.ex(recv, env, B)
+            if tr != "scope": self.bad(".spawn(..) on a value of type %s" % (tr,))
+            body = args[0][2]
+            blk = body[1] if body[0] == "block" else ("blk", [], body)
+            if contains_return(blk): self.bad("`return` inside a spawned closure")
+            rec, outer_ctx = set(), self.ctx
+            no = lambda *a: self.bad("`return` / `continue` out of a spawned closure")
+            self.ctx = Ctx(no, no, [rec], ret_raw=no)
+            try:
+                def fin(env2, v):
+                    if v is None or v[1] != "elem": self.bad("a spawned closure must return an element")
+                    return g_ok(g_raw(v[0]))
+                term = self.block(blk, env, fin)
+            finally:
+                self.ctx = outer_ctx
+            if any(v in rec for v in env.visible()): self.bad("a spawned closure assigns a captured variable")
+            return ("(" + pp(term, 18) + ")", "handle")
+        if name == "sort_by_key" and len(args) == 1:
+            # v.sort_by_key(|x| x.K): the key must be literally a tuple projection of the closure parameter
+            clo = args[0]
+            if not (clo[0] == "closure" and len(clo[1]) == 1 and clo[1][0][0] == "pvar" and clo[2][0] == "field"
+                    and clo[2][1] == ("var", clo[1][0][1]) and clo[2][2].isdigit()):
+                self.bad(".sort_by_key(..) whose key is not `|x| x.<k>`")
+            name, args = "sort_by_key:proj%s" % clo[2][2], []
         r, tr = self.ex(recv, env, B)
         if isinstance(tr, tuple) and tr[0] == "opt" and name == "unwrap" and not args:
             v = self.fresh("u"); B.append(("bind", ("v", v), ("app", "unwrap_opt", [g_raw(r)]))); return (v, tr[1])
@@ -958,8 +1067,16 @@ class Translator:
             if ty == "lit": t = self.lit(t, "lit", pty or "usize"); ty = pty or "usize"
             if pty is not None and ty != pty: self.bad("argument of `.%s` has type %s, the call table expects %s" % (name, ty, pty))
             avals.append(t)
+        for k_, txt in ent.get("require", {}).items():
+            if avals[k_] != txt: self.bad("argument %d of `.%s` must be %s (the call table has no other reading)" % (k_, name, txt))
         outs = ent.get("out", ["ret"])
         t = ent["g"].format(r, *avals)
+        for kname in ent.get("kills", []):
+            # the callee modifies this operand and the model function does not return its new value: it must not be read again
+            pl = strip(recv) if kname == "recv" else strip(args[int(kname[3:])])
+            if pl[0] != "var" or env.lookup(pl[1]) is None: self.bad("call table: `.%s` kills an operand that is not a variable" % name)
+            if not hasattr(self, "killed"): self.killed = set()
+            self.killed.add(env.lookup(pl[1]))
         if outs == ["ret"]:
             if ent.get("fallible"):
                 v = self.fresh("r"); B.append(("bind", ("v", v), g_raw(t))); return (v, ent["ret"])
@@ -990,6 +1107,16 @@ class Translator:
         if f[0] == "var": path = f[1]
         elif f[0] == "path": path = "::".join(f[1])
         else: self.bad("call of a computed function")
+        fv = env.lookup(path) if f[0] == "var" else None
+        if fv is not None and isinstance(fv.ty, tuple) and fv.ty[0] == "fn":
+            # a call of a `&dyn Fn` parameter: arguments left to right, then the (fallible) application
+            if len(args) != len(fv.ty[1]): self.bad("closure `%s` called with %d arguments" % (path, len(args)))
+            avals = []
+            for a, pty in zip(args, fv.ty[1]):
+                t, ty = self.ex(a, env, B)
+                if ty != pty: self.bad("argument of the closure `%s` has type %s (expected %s)" % (path, ty, pty))
+                avals.append(t)
+            v = self.fresh("y"); B.append(("bind", ("v", v), ("app", fv.g, [g_raw(x) for x in avals]))); return (v, fv.ty[2])
         if path in ("Ok", "Err") and len(args) == 1 and self.spec.get("result_sum"):
             if path == "Ok":
                 t, ty = self.ex(args[0], env, B)
@@ -999,6 +1126,14 @@ class Translator:
             for pat, ctor in self.spec["result_sum"]["errors"]:
                 if re.search(pat, a[1]): return ("(inr %s)" % ctor, ("sum", None))
             self.bad("Err(%r): no constructor for this message in the table" % a[1])
+        if path in ("Ok", "Err") and len(args) == 1 and self.spec.get("result_enum"):
+            re_ = self.spec["result_enum"]
+            if path == "Err" and re_.get("err_const"): return (re_["err_const"], re_["ty"])      # the error carries no data the model keeps
+            t, ty = self.ex(args[0], env, B)
+            want = re_["ok_ty" if path == "Ok" else "err_ty"]
+            if ty == "lit": t = self.lit(t, "lit", want); ty = want
+            if ty != want: self.bad("%s(..) of a value of type %s (the table expects %s)" % (path, ty, want))
+            return ("(%s %s)" % (re_["ok" if path == "Ok" else "err"], t), re_["ty"])
         if path == "Some" and len(args) == 1:
             t, ty = self.ex(args[0], env, B)
             return ("(Some %s)" % self.lit(t, ty, "usize"), ("opt", "usize" if ty == "lit" else ty))
@@ -1009,7 +1144,8 @@ class Translator:
         vals = [self.ex(a, env, B) for a in args]
         alts = ent if isinstance(ent, list) else [ent]
         def fits(ty, pty): return pty is None or ty == pty or (ty == "lit" and pty in ("usize", "isize"))
-        chosen = [a for a in alts if all(fits(ty, pty) for (_, ty), pty in zip(vals, a.get("args", [None] * len(args))))]
+        chosen = [a for a in alts if all(fits(ty, pty) for (_, ty), pty in zip(vals, a.get("args", [None] * len(args))))
+                  and all(vals[k][0] == txt for k, txt in a.get("require", {}).items())]
         if not chosen:
             self.bad("arguments of `%s` have types %s, the call table expects %s" % (path, [ty for _, ty in vals], [a.get("args") for a in alts]))
         ent = chosen[0]
@@ -1019,6 +1155,24 @@ class Translator:
             avals.append(t)
         ent2 = dict(ent)
         if ent.get("ret") == "self": ent2["ret"] = self.selfty
+        if ent.get("out"):
+            # a call with `&mut` arguments: the model function returns their new values (and the return value); an argument
+            # `&mut v[i]` is read before the call (above) and written back after it
+            names, later, retname = [], [], None
+            for o in ent["out"]:
+                if o == "ret": retname = self.fresh("r"); names.append(retname); continue
+                pl = strip(args[int(o[3:])])
+                if pl[0] == "var":
+                    v = env.lookup(pl[1])
+                    if v is None: self.bad("unknown variable `%s`" % pl[1])
+                    names.append(v.g); self.ctx.note(v)
+                elif pl[0] in ("field", "index"):
+                    nv = self.fresh("n"); names.append(nv); later.append((pl, nv, self.place_type(pl, env)))
+                else: self.bad("`&mut` argument of `%s` that is not a place" % path)
+            t = ent["g"].format(*avals)
+            B.append(("bind" if ent.get("fallible") else "let", names_pat(names), g_raw(t if ent.get("fallible") else "(" + t + ")")))
+            for pl, nv, pty in later: self.assign_place(pl, nv, pty, env, B)
+            return (retname, ent["ret"]) if retname else ("tt", "unit")
         return self.apply_fn(ent2, avals, B)
 
     def mem_swap(self, args, env, B):
@@ -1042,6 +1196,7 @@ class Translator:
         if p[0] == "var":
             v = env.lookup(p[1])
             if v is None: self.bad("assignment to unknown variable `%s`" % p[1])
+            if v.ty is None: v.ty = "usize" if tval == "lit" else tval       # `let mut b;` gets the type of its first assignment
             if tval == "lit": tval = v.ty
             if v.ty != tval: self.bad("assignment of a %s to `%s` : %s" % (tval, v.name, v.ty))
             if B and B[-1][0] == "bind" and B[-1][1] == ("v", val) and re.match(r"^[a-z]+[0-9]+$", val):
@@ -1054,11 +1209,15 @@ class Translator:
             owner = self.root_var(p, env)
             bty = self.place_type(base, env)
             if bty in LISTS:
+                cur = None
+                if base[0] == "index":
+                    # a[k][v] = x : the row a[k] is read (index-checked) before v is evaluated; it is written back below
+                    cur, _ = self.ex(base, env, B)
                 i, ti = self.ex(p[2], env, B)
                 if ti not in ("usize", "lit"): self.bad("index of type %s" % (ti,))
                 if tval == "lit": tval = LISTS[bty]
                 if tval != LISTS[bty]: self.bad("a %s stored into a %s" % (tval, bty))
-                cur, _ = self.ex(base, env, [])
+                if cur is None: cur, _ = self.ex(base, env, [])
                 direct = self.tb.FIELDS.get((owner.ty, base[2]), ("", ""))[0] == "{0}" if base[0] == "field" else base[0] == "var"
                 if direct and cur == owner.g:                  # x[i] = v  /  x.vec[i] = v : the owner is the list itself
                     B.append(("bind", ("v", owner.g), ("app", "upd", [g_raw(cur), g_raw(i), g_raw(val)])))
@@ -1095,11 +1254,11 @@ class Translator:
     def assigned_in(self, run, env):
         """dry run of a piece of translation to find which outer variables it assigns (in declaration order)"""
         rec = set()
-        saved_n, saved_ctx = self.n, self.ctx
+        saved_n, saved_ctx, saved_k = self.n, self.ctx, set(getattr(self, "killed", ()))
         try:
             run(rec)
         finally:
-            self.n, self.ctx = saved_n, saved_ctx
+            self.n, self.ctx, self.killed = saved_n, saved_ctx, saved_k
         return [v for v in env.visible() if v in rec]
 
     def block(self, blk, env, k):
@@ -1115,8 +1274,11 @@ class Translator:
         if kind == "let": return self.let_stmt(s, env, rest)
         if kind == "const":
             B = []; t, ty = self.ex(s[3], env, B)
+            if B: self.bad("`const %s` whose value is not a constant expression" % s[1])
+            # a compile-time constant: no binder, its uses are replaced by its value
             env2, v = env.declare(s[1], self.gname(s[1]), "usize" if ty == "lit" else ty)
-            B.append(("let", ("v", v.g), g_raw(t))); return wrap(B, rest(env2))
+            v.g = t if re.match(r"^[0-9]+$", t) else "(" + t + ")"
+            return rest(env2)
         if kind == "assign": return self.assign_stmt(s, env, rest)
         if kind == "for": return self.for_stmt(s, env, rest)
         if kind == "while": return self.while_stmt(s, env, rest)
@@ -1136,20 +1298,47 @@ class Translator:
                 if e[1] is None: return self.ctx.ret(env, None)
                 B = []; v = self.ex(e[1], env, B); return wrap(B, self.ctx.ret(env, v))
             if e[0] == "cont_expr": return self.ctx.cont(env)
-            if e[0] == "block": return self.block(e[1], env, lambda env2, v: rest(env))
+            if e[0] == "block": return self.block(e[1], env, lambda env2, v: rest(env.merge(env2)))
             B = []
             if e[0] == "mcall": t, ty = self.mcall(e, env, B, stmt=True)
             else: t, ty = self.ex(e, env, B)
             return wrap(B, rest(env))
         self.bad("statement form `%s`" % kind)
 
+    def scope_closure(self, e):
+        """std::thread::scope(|s| { BODY }) -> (name of s, BODY) or None"""
+        if e[0] == "call" and e[1][0] == "path" and "::".join(e[1][1]) in ("std::thread::scope", "thread::scope") and len(e[2]) == 1:
+            clo = e[2][0]
+            if clo[0] == "closure" and len(clo[1]) == 1 and clo[1][0][0] == "pvar" and clo[2][0] == "block":
+                if contains_return(clo[2][1]): self.bad("`return` inside the closure of thread::scope")
+                return clo[1][0][1], clo[2][1]
+            self.bad("thread::scope(..) with an argument that is not `|s| { .. }`")
+        return None
+
     def tail_expr(self, e, env, k):
+        sc = self.scope_closure(e)
+        if sc is not None:
+            # the value of thread::scope(|s| BODY) is the value of BODY (all workers are joined when it ends)
+            env2, sv = env.declare(sc[0], self.gname(sc[0]), "scope")
+            return self.block(sc[1], env2, lambda env3, v: k(env.merge(env3), v))
         if e[0] == "if" and (e[3] is None or e[2][2] is None):       # a unit `if` in tail position
             return self.if_stmt(e, env, lambda env2: k(env2, None))
         if e[0] == "macro" and e[1] in ("panic", "unreachable"): return ("panic", "Guard")
         if e[0] == "ret_expr":
             if e[1] is None: return self.ctx.ret(env, None)
             B = []; v = self.ex(e[1], env, B); return wrap(B, self.ctx.ret(env, v))
+        if e[0] == "match":
+            # match <option> { Some(x) => <expr | return expr>, None => <expr | return expr> } in tail position
+            B = []
+            sc, ts = self.ex(e[1], env, B)
+            arms = e[2]
+            some = [a for a in arms if a[0][0] == "pctor" and a[0][1] == "Some" and a[0][2][0] == "pvar"]
+            none = [a for a in arms if a[0][0] == "pvar" and a[0][1] in ("None", "_")]
+            if not (isinstance(ts, tuple) and ts[0] == "opt") or len(arms) != 2 or len(some) != 1 or len(none) != 1:
+                self.bad("`match` in tail position that is not Some(x) / None on an Option")
+            env_s, xv = env.declare(some[0][0][2][1], self.gname(some[0][0][2][1]), ts[1])
+            return wrap(B, ("match", sc, [("Some %s" % xv.g, self.tail_expr(some[0][1], env_s, k)),
+                                          ("None", self.tail_expr(none[0][1], env, k))]))
         B = []
         if e[0] == "mcall": v = self.mcall(e, env, B, stmt=True)
         else: v = self.ex(e, env, B)
@@ -1158,8 +1347,21 @@ class Translator:
 
     def let_stmt(self, s, env, rest):
         pat, ty, e = s[1], s[2], s[3]
-        if e is None: self.bad("`let` without initialiser")
+        if e is None:
+            # `let mut x: T;` -- declared, assigned later (Rust's definite-assignment analysis guarantees that no path reads
+            # it before): no Gallina binder here; the first assignment on each path binds it
+            if pat[0] != "pvar": self.bad("`let` without initialiser and with a pattern")
+            dty = rust_type(ty, self.selfty) if ty is not None else None     # `let mut b;`: typed by its first assignment
+            if isinstance(dty, tuple) and dty[0] == "unknown": self.bad("`let %s: %s;` of unsupported type" % (pat[1], dty[1]))
+            env2, v = env.declare(pat[1], self.gname(pat[1]), dty, uninit=True)
+            return rest(env2)
         if e[0] == "match": return self.let_match(s, env, rest)
+        if e[0] == "array" and pat[0] == "pvar" and pat[1] in self.spec.get("arrays", {}):
+            # a table of float literals that the model takes as a parameter (its VALUES are tied by gen/Params.v)
+            g, n = self.spec["arrays"][pat[1]]
+            if len(e[1]) != n or any(x[0] != "num" for x in e[1]): self.bad("array `%s` is not a table of %d literals" % (pat[1], n))
+            env2, v = env.declare(pat[1], self.gname(pat[1]), "vec"); v.g = g
+            return rest(env2)
         B = []
         t, tv = self.ex(e, env, B)
         if pat[0] == "pvar":
@@ -1223,6 +1425,8 @@ class Translator:
         if op == "=":
             t, ty = self.ex(rhs, env, B)
             self.assign_place(place, t, ty, env, B)
+            pl = strip(place)
+            if pl[0] == "var" and env.lookup(pl[1]) is not None: env = env.init(env.lookup(pl[1]))
             return wrap(B, rest(env))
         # compound assignment: place first (read), then the right operand, then the write
         bop = op[0]
@@ -1287,16 +1491,22 @@ class Translator:
         if tex and eex:
             return wrap(B, ("if", c, self.block(th, env, unreachable), self.block(el, env, unreachable)))
         if tex:
-            return wrap(B, ("if", c, self.block(th, env, unreachable), self.block(el, env, lambda env2, v: rest(env))))
+            return wrap(B, ("if", c, self.block(th, env, unreachable), self.block(el, env, lambda env2, v: rest(env.merge(env2)))))
         if eex:
-            return wrap(B, ("if", c, self.block(th, env, lambda env2, v: rest(env)), self.block(el, env, unreachable)))
+            return wrap(B, ("if", c, self.block(th, env, lambda env2, v: rest(env.merge(env2))), self.block(el, env, unreachable)))
         # both branches fall through: join on the variables they assign
+        ends = []
         def run(rec):
             self.ctx = self.ctx.sub(record=rec)
-            self.block(th, env, lambda env2, v: g_ok(g_raw("tt")))
-            self.block(el, env, lambda env2, v: g_ok(g_raw("tt")))
+            self.block(th, env, lambda env2, v: (ends.append(env2), g_ok(g_raw("tt")))[1])
+            self.block(el, env, lambda env2, v: (ends.append(env2), g_ok(g_raw("tt")))[1])
         outer_ctx = self.ctx
         M = self.assigned_in(run, env)
+        # a variable declared without initialiser takes part in the join only if every path that falls through assigns it
+        # (otherwise it is still unassigned afterwards and the assignments are local to their branch)
+        M = [v for v in M if v not in env.uninit or all(v not in e2.uninit for e2 in ends)]
+        env_after = env
+        for v in M: env_after = env_after.init(v)
         names = self.state_of(M)
         escape = lambda *a: self.bad("`return` / `continue` inside an `if` whose other paths fall through (join needed)")
         self.ctx = outer_ctx.sub(ret=escape, cont=escape)
@@ -1306,11 +1516,16 @@ class Translator:
         finally:
             self.ctx = outer_ctx
         for v in M: self.ctx.note(v)
-        return wrap(B, mk_bind(names_pat(names), ("if", c, a, b), rest(env)))
+        return wrap(B, mk_bind(names_pat(names), ("if", c, a, b), rest(env_after)))
 
     def for_stmt(self, s, env, rest):
         pat, it, body = s[1], strip(s[2]), s[3]
         if pat[0] != "pvar": self.bad("`for` with a tuple pattern")
+        if it[0] == "mcall" and it[2] == "drain" and len(it[3]) == 1 and strip(it[3][0])[0] == "range" \
+           and strip(it[3][0])[1] is None and strip(it[3][0])[2] is None:
+            return self.for_in_stmt(pat, it[1], body, env, rest, drain=True)
+        if it[0] == "var" and env.lookup(it[1]) is not None and env.lookup(it[1]).ty in LISTS:
+            return self.for_in_stmt(pat, it, body, env, rest, drain=False)
         rev = False
         if it[0] == "mcall" and it[2] == "rev" and not it[3]:
             rev = True; it = strip(it[1])
@@ -1330,6 +1545,9 @@ class Translator:
             self.block(body, env_i, lambda env2, v: g_ok(g_raw("tt")))
         outer_ctx = self.ctx
         M = self.assigned_in(run, env)
+        # a variable that is still unassigned at the loop head is assigned in every pass before it is read and is not read
+        # after the loop (definite assignment): it is local to the body, not part of the loop state
+        M = [v for v in M if v not in env.uninit]
         names = self.state_of(M)
         early = contains_return(body)
         if early and (rev or signed): self.bad("`return` inside a reversed / isize `for` loop")
@@ -1361,6 +1579,46 @@ class Translator:
             return wrap(B, ("bind", ("v", o), loop, ("match", o, [(pat_inl, rest(env)), ("inr %s" % r, outer_ctx.ret_raw(r))])))
         return wrap(B, mk_bind(names_pat(names), loop, rest(env)))
 
+    def for_in_stmt(self, pat, src, body, env, rest, drain):
+        """for x in v.drain(..) { body }: the elements in order (for_in, gen/SrcPrelude.v); v is empty afterwards"""
+        B = []
+        lst, tl = self.ex(src, env, B)
+        if tl not in LISTS: self.bad("`for .. in` over a value of type %s" % (tl,))
+        if contains_return(body): self.bad("`return` inside a `for` over the elements of a vector")
+        env_i, iv = env.declare(pat[1], self.gname(pat[1]), LISTS[tl])
+        def run(rec):
+            self.ctx = self.ctx.sub(record=rec, cont=lambda env2: g_ok(g_raw("tt")))
+            self.block(body, env_i, lambda env2, v: g_ok(g_raw("tt")))
+        outer_ctx = self.ctx
+        M = self.assigned_in(run, env)
+        M = [v for v in M if v not in env.uninit]
+        owner = self.root_var(src, env)
+        if owner in M: self.bad("the vector a `for` loop drains is assigned inside the loop")
+        names = self.state_of(M)
+        st = g_ok(g_raw(names_term(names)))
+        noret = lambda *a: self.bad("`return` inside a `for` loop")
+        self.ctx = outer_ctx.sub(ret=noret, cont=lambda env2: st)
+        try:
+            bt = self.block(body, env_i, lambda env2, v: st)
+        finally:
+            self.ctx = outer_ctx
+        sty = gtype(("tuple", [v.ty for v in M])) if len(M) > 1 else (gtype(M[0].ty) if M else "unit")
+        if len(M) > 1:
+            sv = self.fresh("s")
+            fun = ("fun", [(iv.g, None), (sv, sty)], mk_let(("tup", names), g_raw(sv), bt))
+        elif len(M) == 1:
+            fun = ("fun", [(iv.g, None), (names[0], sty)], bt)
+        else:
+            fun = ("fun", [(iv.g, None), ("_", "unit")], bt)
+        loop = ("app", "for_in", [g_raw(lst), fun, g_raw(names_term(names))])
+        for v in M: self.ctx.note(v)
+        B2 = []
+        if drain: self.assign_place(src, "(@nil %s)" % gtype(LISTS[tl]), tl, env, B2)
+        else:                                               # `for x in v` moves v: it must not be read again
+            if not hasattr(self, "killed"): self.killed = set()
+            self.killed.add(owner)
+        return wrap(B, mk_bind(names_pat(names), loop, wrap(B2, rest(env))))
+
     def while_stmt(self, s, env, rest):
         """while c { body }  with the fuel bound (and the out-of-fuel outcome) of the table entry of the function:
            while_ret fuel (fun state => <c>; if c then body; WNext state else WDone state) state"""
@@ -1375,6 +1633,7 @@ class Translator:
         outer_ctx = self.ctx
         saved_w = self.nwhile
         M = self.assigned_in(run, env)
+        M = [v for v in M if v not in env.uninit]
         self.nwhile = saved_w
         names = self.state_of(M)
         nxt = g_ok(g_raw("(WNext %s)" % names_term(names)))
